@@ -135,6 +135,7 @@ pub fn run_case(args: &[&str]) -> Option<String> {
     let sh = Shared::new(&[], end, parse_rd(kv(args, "rd")?), parse_wr(kv(args, "wr")?), parse_fl(kv(args, "fl")?));
     sh.lock().unwrap().auto_wake = true;
     sh.lock().unwrap().abort_kind = kv(args, "ek") == Some("a");
+    sh.lock().unwrap().intr_kind = kv(args, "ek") == Some("i");
     let writers: Writers = Arc::new(Mutex::new(vec![]));
     let scripts = Arc::new(Mutex::new(scripts));
 
